@@ -89,6 +89,12 @@ thr_attach(void *a) {
 		api_shutdown_wait(A_WAIT_ATTACHED); /* the main thread joins this thread before it destroys the pool */
 	return (NULL);
 }
+static void
+detach_self_cb(tpt_p tpt, void *udata) {
+	(void)udata;
+	tp_log(R_API_CALL, 0, A_DETACH_SELF, 0, 0);
+	tp_log(R_API_RET, 0, A_DETACH_SELF, (uint64_t)(int64_t)tp_thread_dettach(tpt), 0);
+}
 /* steps executed inside a pool thread */
 static void
 in_pool_cb(tpt_p tpt, void *udata) {
@@ -236,6 +242,17 @@ c11_run(const c11_scn *scn, c11_out *out) {
 	for (i = 0; i < scn->nthreads; i ++) {
 		if (tpt_is_running(tp_thread_get(tp, (size_t)i)))
 			out->ran_mask |= (1u << i);
+	}
+	if (0 != scn->detach_thread) { /* a worker takes itself out of the pool; it is still a created thread that has to be joined */
+		size_t k = (size_t)(scn->detach_thread - 1) % scn->nthreads;
+		if (!(scn->skip_first && 0 == k) && tpt_is_running(tp_thread_get(tp, k)) &&
+		    0 == tpt_msg_send(tp_thread_get(tp, k), NULL, 0, detach_self_cb, NULL)) {
+			int w = 0; /* later in-pool steps must not be addressed to a thread that is about to leave */
+			while (tpt_is_running(tp_thread_get(tp, k)) && w < CEIL_MS * 10) {
+				usleep(100);
+				w ++;
+			}
+		}
 	}
 	switch (scn->shutdown_mode) {
 	case 0:
